@@ -2021,6 +2021,29 @@ def _qs_cases(rng, call):
             lst = "[" + ", ".join(b_ for _, b_ in qs_) + "]"
             out.append((f"(fun ps s => {VIEW} (QS.handle_quic_packet (σ := Unit) {HCF} {CKE} {GFPN} {SLPN} {DEC} {PARSE} () ps s))", f"{lst} {before}",
                         view(me, "fuel" if k == "ok" else v)))
+        # set_initial_decryptor with a toy dev_initial_keys (None, a full dict, a dict with an entry missing) and a toy QuicDecryptor
+        saved2 = (qs.dev_initial_keys, qs.QuicDecryptor)
+        try:
+            for _ in range(3):
+                me = types.SimpleNamespace(quic_version=None, can_decrypt=True, keys={}, decryptors={})
+                names = ["server_initial_key", "server_initial_iv", "client_initial_key", "client_initial_iv"]
+                d = rng.choice([None, {n_: rb(1, 2) for n_ in names}, {n_: rb(1, 2) for n_ in names[:rng.randint(0, 3)]}])
+                qs.dev_initial_keys = lambda dcid, ver, ch: d
+                qs.QuicDecryptor = lambda ks, cipher, early: ("dec", list(ks), early)
+                k, v = call(qs.QuicSession.set_initial_decryptor, me, b"\x01", False)
+                ld = "none" if d is None else "(some [" + ", ".join("(([" + ", ".join(str(ord(c)) for c in n_) + "] : List Nat), " + _b(x) + ")" for n_, x in d.items()) + "])"
+                got = me.decryptors.get("Initial")
+                exp_dec = "none" if got is None else f"(some ([{', '.join(_b(x) for x in got[1])}], {_bool(got[2])}))"
+                out.append(("(fun d => (fun r => match r with | PyRt.Res.ok _ t => (t.canDecrypt, t.keysInitial, (t.decInitial.map (fun x => x.client.key)).getD [], (t.decInitial.map (fun x => x.server.isSome)).getD false, t.decInitial.isSome, PyRt.Err.fuel) "
+                            "| PyRt.Res.raised e t => (t.canDecrypt, t.keysInitial, (t.decInitial.map (fun x => x.client.key)).getD [], (t.decInitial.map (fun x => x.server.isSome)).getD false, t.decInitial.isSome, e)) "
+                            "(QS.set_initial_decryptor (σ := Unit) (fun _ _ _ => d) (fun ks alg early => .ok { alg := alg, server := if early then some ⟨[], []⟩ else none, client := ⟨ks.flatten, []⟩ }) "
+                            "[1] false ({ tls := () } : TLX.Quic.Session.St Unit)))",
+                            ld,
+                            f"({_bool(me.can_decrypt)}, {_bool(len(me.keys) > 0)}, "
+                            + (f"{_b(b'')}, false, false" if got is None else f"{_b(b''.join(got[1]))}, {_bool(got[2])}, true")
+                            + f", PyRt.Err.{'fuel' if k == 'ok' else v})"))
+        finally:
+            qs.dev_initial_keys, qs.QuicDecryptor = saved2
     finally:
         qs.parse_frames = saved
     return out
